@@ -263,7 +263,7 @@ func otherOrders(r *vf.Run) {
 		out := filepath.Join(vf.ScratchDir(), "child-"+r.ID+"-"+strings.ReplaceAll(o, ",", ""))
 		_ = os.MkdirAll(out, 0o755)
 		cmd := exec.Command(exe, r.ID, r.Tier)
-		cmd.Env = append(os.Environ(), "VERIF_MAPPER_ORDER="+o, "VERIF_OUT="+out, fmt.Sprintf("VERIF_SEED=%d", r.Seed))
+		cmd.Env = append(os.Environ(), "VERIF_CHILD=1", "VERIF_MAPPER_ORDER="+o, "VERIF_OUT="+out, fmt.Sprintf("VERIF_SEED=%d", r.Seed))
 		b, err := cmd.CombinedOutput()
 		r.Eval(1)
 		r.Cell("process-order:" + o)
@@ -292,12 +292,55 @@ func otherOrders(r *vf.Run) {
 	}
 }
 
+// c04Check evaluates both laws at one 24-bit number (as a bus address and as a pak address).
+func c04Check(r *vf.Run, m *mapper, a uint32, cells map[string]int64) {
+	// law 1, from the bus side
+	p, err := m.b2p(a)
+	if err == nil {
+		cl := pakClass(p)
+		cells[m.name+":law1:"+cl]++
+		b2, err2 := m.p2b(p)
+		if err2 != nil {
+			r.Fail(m.name+"-law1-inverse-fails", fmt.Sprintf("%s: B2P($%06x)=$%06x but P2B($%06x) fails: %v", m.name, a, p, p, err2), map[string]uint32{"bus": a, "pak": p})
+		} else if p2, err3 := m.b2p(b2); err3 != nil || p2 != p {
+			r.Fail(m.name+"-law1-"+cl, fmt.Sprintf("%s: B2P($%06x)=$%06x, P2B=$%06x, B2P again=($%06x,%v)", m.name, a, p, b2, p2, err3), map[string]uint32{"bus": a, "pak": p, "back": b2})
+		}
+	} else {
+		cells[m.name+":law1:unmapped-bus"]++
+	}
+	// law 2, from the pak side (same 24-bit number reused as a pak address)
+	b, perr := m.p2b(a)
+	if perr != nil {
+		cells[m.name+":law2:rejected"]++
+		return
+	}
+	cl := pakClass(a)
+	cells[m.name+":law2:"+cl]++
+	q, qerr := m.b2p(b)
+	if b > 0xFFFFFF {
+		r.Fail(m.name+"-law2-range", fmt.Sprintf("%s: P2B($%06x)=$%x beyond 24 bits", m.name, a, b), nil)
+	} else if qerr != nil {
+		r.Fail(m.name+"-law2-unmapped-"+cl, fmt.Sprintf("%s: P2B($%06x)=$%06x which B2P does not map (%v)", m.name, a, b, qerr), map[string]uint32{"pak": a, "bus": b})
+	} else {
+		want := cl
+		if want == "wram-mirror" {
+			want = "wram"
+		}
+		if got := pakClass(q); got != want {
+			r.Fail(m.name+"-law2-class-"+cl, fmt.Sprintf("%s: P2B($%06x)=$%06x designates %s ($%06x), want %s", m.name, a, b, got, q, want), map[string]uint32{"pak": a, "bus": b, "pak2": q})
+		} else if q&0x1FFF != a&0x1FFF {
+			r.Fail(m.name+"-law2-page-offset", fmt.Sprintf("%s: P2B($%06x)=$%06x -> $%06x: offset within 8 KiB page changed", m.name, a, b, q), nil)
+		}
+	}
+}
+
 // C04: the two inverse laws, evaluated by composing the real functions over
 // all 2^24 bus and all 2^24 pak addresses of each mapper.
 func C04(r *vf.Run) {
 	r.Rule = "exhaustive sweep of all 2^24 bus addresses (law 1: B2P(P2B(B2P(b)))==B2P(b)) and all 2^24 pak addresses (law 2: P2B(p) is mapped, same class, same offset in its 8 KiB page) for each of the 4 mappers, repeated in fresh child processes that first use the mappers in other orders; a cell is (mapper, law, memory class of the address) or a first-use order"
 	r.Exhaustive = true
 	r.Assume = []string{"pak-side class windows: ROM < $E00000, SRAM $E0-$EF, WRAM $F5-$F6 with $F7-$FF counted as WRAM mirrors"}
+	libraryFirst(r)
 	for _, mi := range mapperOrder() {
 		m := mappers[mi]
 		if !r.Phase(m.name) {
@@ -306,52 +349,16 @@ func C04(r *vf.Run) {
 		r.Parallel(runtime.NumCPU(), 256, func(w, bank int) {
 			cells := map[string]int64{}
 			for off := uint32(0); off < 0x10000; off++ {
-				a := uint32(bank)<<16 | off
-				// law 1, from the bus side
-				p, err := m.b2p(a)
-				if err == nil {
-					cl := pakClass(p)
-					cells[m.name+":law1:"+cl]++
-					b2, err2 := m.p2b(p)
-					if err2 != nil {
-						r.Fail(m.name+"-law1-inverse-fails", fmt.Sprintf("%s: B2P($%06x)=$%06x but P2B($%06x) fails: %v", m.name, a, p, p, err2), map[string]uint32{"bus": a, "pak": p})
-					} else if p2, err3 := m.b2p(b2); err3 != nil || p2 != p {
-						r.Fail(m.name+"-law1-"+cl, fmt.Sprintf("%s: B2P($%06x)=$%06x, P2B=$%06x, B2P again=($%06x,%v)", m.name, a, p, b2, p2, err3), map[string]uint32{"bus": a, "pak": p, "back": b2})
-					}
-				} else {
-					cells[m.name+":law1:unmapped-bus"]++
-				}
-				// law 2, from the pak side (same 24-bit number reused as a pak address)
-				b, perr := m.p2b(a)
-				if perr != nil {
-					cells[m.name+":law2:rejected"]++
-					continue
-				}
-				cl := pakClass(a)
-				cells[m.name+":law2:"+cl]++
-				q, qerr := m.b2p(b)
-				if b > 0xFFFFFF {
-					r.Fail(m.name+"-law2-range", fmt.Sprintf("%s: P2B($%06x)=$%x beyond 24 bits", m.name, a, b), nil)
-				} else if qerr != nil {
-					r.Fail(m.name+"-law2-unmapped-"+cl, fmt.Sprintf("%s: P2B($%06x)=$%06x which B2P does not map (%v)", m.name, a, b, qerr), map[string]uint32{"pak": a, "bus": b})
-				} else {
-					want := cl
-					if want == "wram-mirror" {
-						want = "wram"
-					}
-					if got := pakClass(q); got != want {
-						r.Fail(m.name+"-law2-class-"+cl, fmt.Sprintf("%s: P2B($%06x)=$%06x designates %s ($%06x), want %s", m.name, a, b, got, q, want), map[string]uint32{"pak": a, "bus": b, "pak2": q})
-					} else if q&0x1FFF != a&0x1FFF {
-						r.Fail(m.name+"-law2-page-offset", fmt.Sprintf("%s: P2B($%06x)=$%06x -> $%06x: offset within 8 KiB page changed", m.name, a, b, q), nil)
-					}
-				}
+				c04Check(r, &m, uint32(bank)<<16|off, cells)
 			}
 			r.Eval(2 << 16)
 			r.MergeCells(cells)
 		})
 		r.Sample(map[string]interface{}{"mapper": m.name, "bus": "$808000", "pak": fmt.Sprintf("$%06x", first(m.b2p(0x808000)))})
 	}
+	interleavedWithLibrary(r, func(m *mapper, a uint32, cells map[string]int64) { c04Check(r, m, a, cells) })
 	otherOrders(r)
+	runChild(r, "library-first", "VERIF_LIB_FIRST=1", "VERIF_MAPPER_ORDER=0,1,2,3")
 	if r.OnlyPhase == "" {
 		for _, m := range mappers {
 			for _, c := range []string{"law1:rom", "law1:sram", "law1:wram", "law2:rom", "law2:sram", "law2:wram", "law2:wram-mirror", "law2:rejected"} {
@@ -403,6 +410,49 @@ func coldStartProbe(r *vf.Run) {
 	r.Cell("cold:done")
 }
 
+// c05Check: the table, the error shape and the reject set at one 24-bit number.
+func c05Check(r *vf.Run, m *mapper, a uint32) {
+	var g *region
+	for ri := range m.regs {
+		x := &m.regs[ri]
+		if a>>16 >= x.bankLo && a>>16 <= x.bankHi && a&0xFFFF >= x.offLo && a&0xFFFF <= x.offHi {
+			g = x
+		}
+	}
+	p, err := m.b2p(a)
+	un, wf := isUnmapped(p, err)
+	if !wf {
+		r.Fail(m.name+"-error-shape", fmt.Sprintf("%s: B2P($%06x)=($%06x,%v): not (0, ErrUnmappedAddress)", m.name, a, p, err), nil)
+	}
+	cl := "none"
+	if !un {
+		cl = pakClass(p)
+		if cl != "rom" && cl != "sram" && cl != "wram" {
+			r.Fail(m.name+"-window", fmt.Sprintf("%s: B2P($%06x)=$%06x outside every class window", m.name, a, p), nil)
+		}
+	}
+	if g != nil {
+		if cl != g.class {
+			r.Fail(m.name+"-table-class-"+g.name, fmt.Sprintf("%s: B2P($%06x) is %s ($%06x,%v), table region %s says %s", m.name, a, cl, p, err, g.name, g.class), nil)
+		} else if !un {
+			if want := g.eval(a); want != p {
+				r.Fail(m.name+"-table-position-"+g.name, fmt.Sprintf("%s: B2P($%06x)=$%06x, table region %s says $%06x", m.name, a, p, g.name, want), nil)
+			}
+		}
+	}
+	b, perr := m.p2b(a)
+	pun, pwf := isUnmapped(b, perr)
+	if !pwf {
+		r.Fail(m.name+"-error-shape-p2b", fmt.Sprintf("%s: P2B($%06x)=($%06x,%v): not (0, ErrUnmappedAddress)", m.name, a, b, perr), nil)
+	}
+	if pun != (pakClass(a) == "none") {
+		r.Fail(m.name+"-reject-set", fmt.Sprintf("%s: P2B($%06x) rejected=%v but the unassigned window is exactly $F00000-$F4FFFF", m.name, a, pun), nil)
+	}
+	if !pun && b > 0xFFFFFF {
+		r.Fail(m.name+"-p2b-range", fmt.Sprintf("%s: P2B($%06x)=$%x beyond 24 bits", m.name, a, b), nil)
+	}
+}
+
 func C05(r *vf.Run) {
 	if os.Getenv("VERIF_COLDSTART") != "" {
 		r.Rule = "cold-start probe (child process)"
@@ -412,6 +462,7 @@ func C05(r *vf.Run) {
 	r.Rule = "exhaustive sweep of all 2^24 bus and 2^24 pak addresses x 4 mappers: error shape, class windows, reject set, 8 KiB page uniformity and order preservation in both directions, console-owned agreement, and equality with a declarative region table, repeated in fresh child processes that first use the mappers in other orders (workers released by a start barrier, so first use is concurrent); a cell is (mapper, table region), (mapper, pak class) or a first-use order"
 	r.Exhaustive = true
 	r.Assume = []string{"region tables in props/mappers.go transcribe the documentation comments of the mapper sources"}
+	libraryFirst(r)
 	for _, mi := range mapperOrder() {
 		m := mappers[mi]
 		if !r.Phase(m.name) {
@@ -534,7 +585,9 @@ func C05(r *vf.Run) {
 		r.Eval(n)
 		r.CellN("cross:console-addresses", n)
 	}
+	interleavedWithLibrary(r, func(m *mapper, a uint32, cells map[string]int64) { c05Check(r, m, a) })
 	otherOrders(r)
+	runChild(r, "library-first", "VERIF_LIB_FIRST=1", "VERIF_MAPPER_ORDER=0,1,2,3")
 	coldStartChildren(r)
 	if r.OnlyPhase == "" {
 		for _, m := range mappers {
